@@ -168,14 +168,39 @@ func runWmAdvance(c *Ctx, r *RuleRun) {
 		if len(st.Call.Args) < 2 {
 			continue
 		}
-		ph, ok := st.Call.Args[1].(*ssa.Phi)
+		stored := st.Call.Args[1]
+		// the candidate may be computed by a helper that pops the finished minima: advance(&heap, pending, current)
+		isCurrent := func(v ssa.Value) bool { return a.isDoneUntilRead(p, v) }
+		if hc, isCall := stored.(*ssa.Call); isCall && hc.Call.StaticCallee() != nil && hc.Call.StaticCallee().Pkg == f.Pkg && len(hc.Call.StaticCallee().Blocks) > 0 {
+			h := hc.Call.StaticCallee()
+			var rets []ssa.Value
+			eachInstr(h, func(ins ssa.Instruction) {
+				if ret, ok := ins.(*ssa.Return); ok && len(ret.Results) == 1 {
+					rets = append(rets, retOperand(ret, 0))
+				}
+			})
+			if len(rets) == 1 {
+				stored = rets[0]
+				isCurrent = func(v ssa.Value) bool {
+					if pr, isParam := v.(*ssa.Parameter); isParam {
+						for i, q := range h.Params {
+							if q == pr && i < len(hc.Call.Args) {
+								return a.isDoneUntilRead(p, hc.Call.Args[i])
+							}
+						}
+					}
+					return a.isDoneUntilRead(p, v)
+				}
+			}
+		}
+		ph, ok := stored.(*ssa.Phi)
 		if !ok {
 			r.Viol(fn, "stored value", p.Pos(instrPos(st)), "the value stored into doneUntil is not the loop-carried candidate (current mark / finished heap minimum)")
 			continue
 		}
 		for i, e := range ph.Edges {
 			pred := ph.Block().Preds[i]
-			if a.isDoneUntilRead(p, e) {
+			if isCurrent(e) {
 				r.Hold(fn, "candidate: current mark", p.Pos(instrPos(st)), "starts from the current value of doneUntil")
 				continue
 			}
@@ -185,6 +210,25 @@ func runWmAdvance(c *Ctx, r *RuleRun) {
 				if ia, ok := ld.X.(*ssa.IndexAddr); ok {
 					if k, ok := constInt(ia.Index); ok && k == 0 {
 						isMin = true
+					}
+				}
+			}
+			// an accessor of the heap type that returns its element 0 (peek)
+			if cl, ok := e.(*ssa.Call); ok {
+				if g := cl.Call.StaticCallee(); g != nil && g.Pkg == f.Pkg && g.Signature.Recv() != nil && len(g.Blocks) == 1 {
+					if ret, ok := g.Blocks[0].Instrs[len(g.Blocks[0].Instrs)-1].(*ssa.Return); ok && len(ret.Results) == 1 {
+						if ld, ok := ret.Results[0].(*ssa.UnOp); ok && ld.Op == token.MUL {
+							if ia, ok := ld.X.(*ssa.IndexAddr); ok {
+								k, isK := constInt(ia.Index)
+								base := ia.X
+								if u, isLd := base.(*ssa.UnOp); isLd && u.Op == token.MUL {
+									base = u.X
+								}
+								if isK && k == 0 && base == ssa.Value(g.Params[0]) {
+									isMin = true
+								}
+							}
+						}
 					}
 				}
 			}
@@ -205,7 +249,7 @@ func runWmAdvance(c *Ctx, r *RuleRun) {
 				case *ssa.Extract:
 					lk, _ = y.Tuple.(*ssa.Lookup)
 				}
-				return lk != nil && lk.Index == e
+				return lk != nil && (lk.Index == e || sameReRead(p, lk.Index, e))
 			})
 			r.Check(isMin && notPending, fn, "candidate: finished heap minimum", p.Pos(instrPos(last)), "heap[0], taken only when its pending count is not positive",
 				"doneUntil can advance to a value that is not the heap minimum, or to an index whose pending count is still positive (begun more often than finished)")
@@ -220,7 +264,8 @@ func runWmSign(c *Ctx, r *RuleRun) {
 	}
 	p := c.P
 	// producers: the done field of the mark sent
-	sentDone := func(f *ssa.Function) (val ssa.Value, found bool, pos token.Pos) {
+	var sentDone func(f *ssa.Function) (val ssa.Value, found bool, pos token.Pos)
+	sentDone = func(f *ssa.Function) (val ssa.Value, found bool, pos token.Pos) {
 		eachInstr(f, func(ins ssa.Instruction) {
 			snd, ok := ins.(*ssa.Send)
 			if !ok {
@@ -247,6 +292,40 @@ func runWmSign(c *Ctx, r *RuleRun) {
 		})
 		return
 	}
+	// the send may live in a helper that is handed the flag (post(ts, done, waiter))
+	direct := sentDone
+	sentDone = func(f *ssa.Function) (ssa.Value, bool, token.Pos) {
+		if v, found, pos := direct(f); found {
+			return v, found, pos
+		}
+		var val ssa.Value
+		found := false
+		var pos token.Pos
+		eachInstr(f, func(ins ssa.Instruction) {
+			cl, ok := ins.(*ssa.Call)
+			if !ok {
+				return
+			}
+			h := cl.Call.StaticCallee()
+			if h == nil || h.Pkg != f.Pkg || len(h.Blocks) == 0 {
+				return
+			}
+			hv, hf, _ := direct(h)
+			if !hf {
+				return
+			}
+			found, pos = true, instrPos(cl)
+			val = hv
+			if pr, isParam := hv.(*ssa.Parameter); isParam {
+				for i, q := range h.Params {
+					if q == pr && i < len(cl.Call.Args) {
+						val = cl.Call.Args[i]
+					}
+				}
+			}
+		})
+		return val, found, pos
+	}
 	bv, bf, bp := sentDone(a.begin)
 	r.Check(bf && (bv == nil || isConstBool(bv, false)), p.FnName(a.begin), "sends done=false", p.Pos(bp), "Begin sends a mark with done=false", "Begin does not send a mark with done=false")
 	dv, df, dp := sentDone(a.done)
@@ -260,7 +339,25 @@ func runWmSign(c *Ctx, r *RuleRun) {
 			return
 		}
 		bo, ok := mu.Value.(*ssa.BinOp)
-		if !ok || bo.Op != token.ADD {
+		if !ok || (bo.Op != token.ADD && bo.Op != token.SUB) {
+			return
+		}
+		if mt, isMap := mu.Map.Type().Underlying().(*types.Map); !isMap || !isIntType(mt.Elem()) {
+			return
+		}
+		// written out per branch: pending[ts] = prev - 1 under done, prev + 1 otherwise
+		if k, isK := constInt(bo.Y); isK && (k == 1 || k == -1) {
+			delta := k
+			if bo.Op == token.SUB {
+				delta = -k
+			}
+			n++
+			isDone := func(v ssa.Value) bool { return isLoadOfField(v, a.fDone) }
+			good := (delta == -1 && boolFactIs(mu, isDone, true)) || (delta == 1 && boolFactIs(mu, isDone, false))
+			r.Check(good, p.FnName(f), "pending += done ? -1 : +1", p.Pos(instrPos(mu)), "+1 for a begin mark, -1 for a done mark", "the pending count is not incremented for begin marks and decremented for done marks")
+			return
+		}
+		if bo.Op != token.ADD {
 			return
 		}
 		ph, ok := bo.Y.(*ssa.Phi)
@@ -333,7 +430,20 @@ func runWmSign(c *Ctx, r *RuleRun) {
 			r.Undecided("-", "heap."+m, "", "lowHeap/kway.Heap method not found")
 			continue
 		}
-		r.Check(funcShape(wf) == funcShape(kf), "lowHeap/kway.Heap", "sibling "+m, p.Pos(wf.Pos()), "same shape as its sibling implementation of container/heap", "lowHeap."+m+" and kway.Heap."+m+" implement the container/heap contract differently: one of them is wrong")
+		// each of the two sibling implementations is held to the contract of container/heap on its own
+		okW, whyW := heapContract(wf, m)
+		okK, whyK := heapContract(kf, m)
+		why := ""
+		if !okW {
+			why = "lowHeap." + m + ": " + whyW
+		} else if !okK {
+			why = "kway.Heap." + m + ": " + whyK
+		}
+		pos := wf.Pos()
+		if okW && !okK {
+			pos = kf.Pos()
+		}
+		r.Check(okW && okK, "lowHeap/kway.Heap", "sibling "+m, p.Pos(pos), "both implementations follow the container/heap contract (Len = len, Swap exchanges, Push appends, Pop cuts off and returns the last element)", why+": the heap's invariant is broken, its root is no longer the minimum")
 	}
 }
 
@@ -379,46 +489,124 @@ func runWmWait(c *Ctx, r *RuleRun) {
 	if n == 0 {
 		r.Viol(p.FnName(f), "close waiter", p.Pos(f.Pos()), "the consumer never closes a waiter channel: WaitForMark blocks forever")
 	}
-	// WaitForMark returns
+	// WaitForMark returns: nil only on the fast path or after the waiter was closed, otherwise the context's error -
+	// in WaitForMark itself, through a result variable, or in a helper whose answer it hands on
 	wf := a.wait
-	var sel *ssa.Select
-	eachInstr(wf, func(ins ssa.Instruction) {
-		if s, ok := ins.(*ssa.Select); ok {
-			sel = s
+	anyFact := func(facts []Cmp, pred func(Cmp) bool) bool {
+		for _, f := range facts {
+			if pred(f) || pred(f.Flip()) {
+				return true
+			}
 		}
-	})
-	eachInstr(wf, func(ins ssa.Instruction) {
-		ret, ok := ins.(*ssa.Return)
-		if !ok {
-			return
+		return false
+	}
+	var judge func(g *ssa.Function, v ssa.Value, facts []Cmp, at ssa.Instruction, depth int)
+	judge = func(g *ssa.Function, v ssa.Value, facts []Cmp, at ssa.Instruction, depth int) {
+		gn := p.FnName(g)
+		switch x := v.(type) {
+		case *ssa.Phi:
+			if x.Block() == at.Block() && depth < 4 {
+				for i, e := range x.Edges {
+					judge(g, e, edgeFacts(x.Block().Preds[i], x.Block()), at, depth+1)
+				}
+				return
+			}
+		case *ssa.Call:
+			if x.Call.IsInvoke() && x.Call.Method.Name() == "Err" {
+				r.Hold(gn, "return ctx.Err()", p.Pos(instrPos(at)), "the context's error")
+				return
+			}
+			if h := x.Call.StaticCallee(); h != nil && h.Pkg == wf.Pkg && len(h.Blocks) > 0 && depth < 4 && errResultIndex(h.Signature) == 0 && h.Signature.Results().Len() == 1 {
+				eachInstr(h, func(ins ssa.Instruction) {
+					if ret, ok := ins.(*ssa.Return); ok {
+						judge(h, retOperand(ret, 0), factsAt(ret), ret, depth+1)
+					}
+				})
+				return
+			}
 		}
-		v := retOperand(ret, 0)
 		if isNilConst(v) {
-			fast := hasFact(ret, func(cm Cmp) bool {
+			fast := anyFact(facts, func(cm Cmp) bool {
 				_, isParam := cm.Y.(*ssa.Parameter)
 				return cm.Op == ">=" && cm.Y != nil && a.isDoneUntilRead(p, cm.X) && isParam
 			})
-			woken := false
-			if sel != nil {
-				woken = hasFact(ret, func(cm Cmp) bool {
-					ex, ok := cm.X.(*ssa.Extract)
-					if !ok || ex.Tuple != ssa.Value(sel) || ex.Index != 0 || cm.Op != "==" || cm.Y == nil {
-						return false
-					}
-					k, ok := constInt(cm.Y)
-					if !ok || int(k) >= len(sel.States) {
-						return false
-					}
-					_, isLocal := sel.States[k].Chan.(*ssa.MakeChan)
-					return isLocal && sel.States[k].Dir == types.RecvOnly
-				})
-			}
-			r.Check(fast || woken, p.FnName(wf), "return nil", p.Pos(instrPos(ret)), "nil only when DoneUntil() >= ts or after the waiter was closed", "WaitForMark can return nil although neither DoneUntil() >= ts held nor its waiter was closed")
-		} else {
-			// must be ctx.Err() in the ctx.Done() arm
-			call, isCall := v.(*ssa.Call)
-			isCtxErr := isCall && call.Call.IsInvoke() && call.Call.Method.Name() == "Err"
-			r.Check(isCtxErr, p.FnName(wf), "return ctx.Err()", p.Pos(instrPos(ret)), "the context's error", "WaitForMark returns an error other than the context's error")
+			woken := anyFact(facts, func(cm Cmp) bool {
+				ex, ok := cm.X.(*ssa.Extract)
+				if !ok || ex.Index != 0 || cm.Op != "==" || cm.Y == nil {
+					return false
+				}
+				sel, ok := ex.Tuple.(*ssa.Select)
+				if !ok {
+					return false
+				}
+				k, ok := constInt(cm.Y)
+				if !ok || int(k) >= len(sel.States) {
+					return false
+				}
+				// the waiter: a channel made here, or handed to an unexported helper
+				_, isLocal := sel.States[k].Chan.(*ssa.MakeChan)
+				if pr, isParam := unconv(sel.States[k].Chan).(*ssa.Parameter); isParam && !p.isExported(pr.Parent()) {
+					isLocal = true
+				}
+				return isLocal && sel.States[k].Dir == types.RecvOnly
+			})
+			r.Check(fast || woken, gn, "return nil", p.Pos(instrPos(at)), "nil only when DoneUntil() >= ts or after the waiter was closed", "WaitForMark can return nil although neither DoneUntil() >= ts held nor its waiter was closed")
+			return
+		}
+		r.Viol(gn, "return ctx.Err()", p.Pos(instrPos(at)), "WaitForMark returns an error other than the context's error")
+	}
+	eachInstr(wf, func(ins ssa.Instruction) {
+		if ret, ok := ins.(*ssa.Return); ok {
+			judge(wf, retOperand(ret, 0), factsAt(ret), ret, 0)
 		}
 	})
+}
+
+func isIntType(t types.Type) bool {
+	bt, ok := t.Underlying().(*types.Basic)
+	return ok && bt.Info()&types.IsInteger != 0
+}
+
+// sameReRead: a and b are loads of the same location (same normal form of the address) and nothing between the first
+// and the second can have changed it: they are in one block, or the second is in a block entered only from the block
+// of the first, and no call (other than len/cap), store or map update lies between them.
+func sameReRead(p *Prog, a, b ssa.Value) bool {
+	la, ok1 := a.(*ssa.UnOp)
+	lb, ok2 := b.(*ssa.UnOp)
+	if !ok1 || !ok2 || la.Op != token.MUL || lb.Op != token.MUL {
+		return false
+	}
+	o := nfOpts{p: p, depth: 6}
+	if o.nf(la.X) != o.nf(lb.X) {
+		return false
+	}
+	first, second := ssa.Instruction(la), ssa.Instruction(lb)
+	if !dominatesInstr(first, second) {
+		first, second = second, first
+	}
+	if !dominatesInstr(first, second) {
+		return false
+	}
+	var between []ssa.Instruction
+	fb, sb := first.Block(), second.Block()
+	switch {
+	case fb == sb:
+		between = fb.Instrs[instrIndex(first)+1 : instrIndex(second)]
+	case len(sb.Preds) == 1 && sb.Preds[0] == fb:
+		between = append(append([]ssa.Instruction{}, fb.Instrs[instrIndex(first)+1:]...), sb.Instrs[:instrIndex(second)]...)
+	default:
+		return false
+	}
+	for _, ins := range between {
+		switch x := ins.(type) {
+		case *ssa.Store, *ssa.MapUpdate, *ssa.Send, *ssa.Go, *ssa.Defer:
+			return false
+		case *ssa.Call:
+			if bi, ok := x.Call.Value.(*ssa.Builtin); ok && (bi.Name() == "len" || bi.Name() == "cap") {
+				continue
+			}
+			return false
+		}
+	}
+	return true
 }
